@@ -17,6 +17,7 @@ PROFILE = {
     "special": 0.03,
     "hostile_values": False,
     "max_delay_ticks": 16,
+    "attempt_timeout": 0.1,
 }
 
 
@@ -101,7 +102,7 @@ PROP = Property(
     ),
     assumptions=["time only advances inside the scripted operation and sleeper (virtual monotonic clock)"],
     streams=[
-        Stream("caps", check, strategy=C.with_entry(gen.retry_case(PROFILE), C.RETRY_ENTRIES), quick=12000, thorough=300000),
+        Stream("caps", check, strategy=C.with_entry(gen.retry_case(PROFILE), C.WIDE_ENTRIES), quick=12000, thorough=300000),
         Stream("small_scope", check, enum=enum_cases, quick=1, thorough=1, exhaustive=True),
     ],
 )
